@@ -74,12 +74,14 @@ def build_file(ex, n, tables=('/monte_carlo_data/particles', '/data/triggers'), 
             g = f.create_group(tab)
             s = f.create_dataset(tab + '/str', shape=(total, 2))
             s.attrs['keys'] = ['particle_name', 'interaction_kind']
+            s.force_rows = True
             fl = f.create_dataset(tab + '/float', shape=(total, 3))
             fl.attrs['keys'] = ['particle_id', 'vertex_x', 'energy']
+            fl.force_rows = True
             if tab.endswith('particles'):
                 f[tab].attrs['total_thrown'] = ex.integer('thrown', 0, 10 ** 6)
         else:
-            f.create_dataset(tab, shape=(total,), dtype=np.bool_)
+            f.create_dataset(tab, shape=(total,), dtype=np.bool_).force_rows = True
     if '/monte_carlo_data/particles' not in tables:
         f.create_group('/monte_carlo_data/particles')
         f['/monte_carlo_data/particles'].attrs['total_thrown'] = 0
@@ -413,6 +415,16 @@ HARNESSES = [
                    _slice_cases((4, 5, 6), (None, 1, 2, 3), (2, 3, 4), neg=False)},
             budget={'quick': {'wall_s': 200}}),
 ]
+
+def _append_harness():
+    from harness import C11
+    h = [x for x in C11.HARNESSES if x.name == 'append'][0]
+    return Harness('append-sessions', h.fn, h.modules, cases=h.cases, twins=h.twins,
+                   encodes=lambda: __import__('harness.C11', fromlist=['x'])._enc()[:2],
+                   extra_swaps=h.extra_swaps, doc=h.fn.__doc__)
+
+
+HARNESSES.append(_append_harness())
 
 _LENS_Q = [(1,), (3,), (2, 1), (1, 0, 2), (4, 2), (0, 3), (2, 2, 1)]
 _LENS_T = _LENS_Q + [(5,), (7,), (3, 4), (1, 1, 1), (0, 0, 2), (6, 1), (2, 0, 0), (0,), (0, 0)]
